@@ -19,6 +19,12 @@ pub enum Op {
     Nak(i64, u64),
     /// one NAK datagram listing the consecutive numbers s, s+1, .., s+k-1 (what a range entry expands to)
     NakRun(i64, u32, u64),
+    /// one flushed batch on link i: k queued datagrams through the REAL queue_data_packet + take_batch; bit j of
+    /// the mask set = entry j is an SRT control packet (no sequence number), clear = a data packet carrying the
+    /// next number from the base.  (link, base, k, mask, now)
+    Batch(usize, i64, u32, u32, u64),
+    /// one SRTLA ACK datagram listing the consecutive numbers s .. s+k-1, through the real fan-out in ONE call
+    SrtlaAckRun(usize, i64, u32, bool, u64),
     Recovery(usize, u64, bool),
     CcAck(usize, bool, i64),
     CcNak(usize, u64),
@@ -39,6 +45,8 @@ pub fn op_lit(o: &Op) -> String {
         Op::SrtlaAck(i, s, c, t) => format!("OSrtlaAck {} {} {} {}", i, z(*s as i128), boolc(*c), t),
         Op::Nak(s, t) => format!("ONak {} {}", z(*s as i128), t),
         Op::NakRun(s, _, t) => format!("ONak {} {}", z(*s as i128), t),   // expanded per element by run_case
+        Op::Batch(i, s, _, _, t) => format!("ORegister {} {} {}", i, z(*s as i128), t),           // expanded by run_case
+        Op::SrtlaAckRun(i, s, _, c, t) => format!("OSrtlaAck {} {} {} {}", i, z(*s as i128), boolc(*c), t),   // expanded by run_case
         Op::Recovery(i, t, v) => format!("ORecovery {} {} {}", i, t, boolc(*v)),
         Op::CcAck(i, c, inf) => format!("OCcAck {} {} {}", i, boolc(*c), z(*inf as i128)),
         Op::CcNak(i, t) => format!("OCcNak {} {}", i, t),
@@ -55,7 +63,8 @@ pub fn op_lit(o: &Op) -> String {
 pub fn op_kind(o: &Op) -> &'static str {
     match o {
         Op::Register(..) => "register", Op::Track(..) => "track", Op::SrtAck(..) => "srt_ack",
-        Op::SrtlaAck(..) => "srtla_ack", Op::Nak(..) => "nak", Op::NakRun(..) => "nak_run", Op::Recovery(..) => "recovery",
+        Op::SrtlaAck(..) => "srtla_ack", Op::Nak(..) => "nak", Op::NakRun(..) => "nak_run", Op::Batch(..) => "flushed_batch",
+        Op::SrtlaAckRun(..) => "srtla_ack_run", Op::Recovery(..) => "recovery",
         Op::CcAck(..) => "cc_ack", Op::CcNak(..) => "cc_nak", Op::Global(..) => "global",
         Op::MarkRecovery(..) => "mark_recovery", Op::ResetReconnect(..) => "reset_reconnect",
         Op::Reg3(..) => "reg3", Op::SetConn(..) => "set_conn", Op::SetWindow(..) => "set_window",
@@ -113,6 +122,20 @@ impl World {
                 let mut inc = SrtlaIncoming { read_any: true, ..Default::default() };
                 for j in 0..k as i64 { inc.nak_numbers.push((s + j) as u32); }
                 self.events(0, false, now, inc);
+            }
+            Op::Batch(i, s0, k, mask, t) => {
+                let mut d = 0i64;
+                for j in 0..k {
+                    let seq = if (mask >> j) & 1 == 1 { None } else { d += 1; Some((s0 + d - 1) as u32) };
+                    let data = [0x80u8; 20];
+                    let _ = self.conns[i].queue_data_packet(&data, seq, t);
+                }
+                let _ = self.conns[i].take_batch(t);
+            }
+            Op::SrtlaAckRun(idx, s, k, classic, now) => {
+                let mut inc = SrtlaIncoming { read_any: true, ..Default::default() };
+                for j in 0..k as i64 { inc.srtla_ack_numbers.push((s + j) as u32); }
+                self.events(idx, classic, now, inc);
             }
             Op::Recovery(i, now, vel_hi) => {
                 let c = &mut self.conns[i];
@@ -242,6 +265,40 @@ pub fn run_case(n: usize, ops: &[Op]) -> (String, bool) {
             steps.push(format!("({},{})", op_lit(&Op::Nak(s + k as i64 - 1, now)), w.obs()));
             continue;
         }
+        // Multi-item calls of a real outer function (a flushed batch = k registrations, an SRTLA ACK list = k
+        // entries): like NakRun, the observation after the first j items comes from a second execution of the same
+        // history whose call is cut after j items; the last one is the full call on the main world.
+        let items: Option<Vec<(Op, Op)>> = match *o {       // (cut call up to and including this item, the model's op)
+            Op::Batch(i, s0, k, mask, t) => {
+                let mut v = vec![]; let mut d = 0i64;
+                for j in 0..k { if (mask >> j) & 1 == 0 { v.push((Op::Batch(i, s0, j + 1, mask, t), Op::Register(i, s0 + d, t))); d += 1; } }
+                Some(v)
+            }
+            Op::SrtlaAckRun(idx, s, k, c, t) =>
+                Some((1..=k).map(|j| (Op::SrtlaAckRun(idx, s, j, c, t), Op::SrtlaAck(idx, s + j as i64 - 1, c, t))).collect()),
+            _ => None,
+        };
+        if let Some(items) = items {
+            let m = items.len();
+            for (q, (cut, single)) in items.iter().enumerate() {
+                if q + 1 < m {
+                    let mut w2 = World::new(n);
+                    let r = std::panic::catch_unwind(std::panic::AssertUnwindSafe(|| {
+                        for p in &ops[..pos] { w2.apply(p); }
+                        w2.apply(cut);
+                    }));
+                    if r.is_err() { panicked = true; break; }
+                    steps.push(format!("({},{})", op_lit(single), w2.obs()));
+                } else {
+                    let r = std::panic::catch_unwind(std::panic::AssertUnwindSafe(|| w.apply(o)));
+                    if r.is_err() { panicked = true; break; }
+                    steps.push(format!("({},{})", op_lit(single), w.obs()));
+                }
+            }
+            if panicked { steps.push(format!("({},[])", op_lit(o))); break; }
+            if m == 0 { let _ = std::panic::catch_unwind(std::panic::AssertUnwindSafe(|| w.apply(o))); }
+            continue;
+        }
         let r = std::panic::catch_unwind(std::panic::AssertUnwindSafe(|| w.apply(o)));
         if r.is_err() {
             panicked = true;
@@ -353,7 +410,22 @@ pub fn gen_ops(rng: &mut Rng, profile: Profile, n: usize, len: usize) -> Vec<Op>
                     for _ in 0..k { ops.push(Op::CcAck(i, classic, inf)); }
                 }
                 else if r < 62 { let t = g.tick(long); let v = g.rng.chance(1, 3); ops.push(Op::Recovery(i, t, v)); }
-                else if r < 70 { ops.push(Op::Global(i)); }
+                else if r < 66 { ops.push(Op::Global(i)); }
+                else if r < 70 {
+                    // an SRTLA ACK list (2..12 numbers) through the real fan-out in one call, some links placed just
+                    // below the ceiling first: the global +1 per entry must stop at 60000 on every link
+                    if g.rng.chance(2, 3) {
+                        for l in 0..g.n { if g.rng.chance(1, 2) { ops.push(Op::SetWindow(l, 60_000 - g.rng.range(0, 12))); } }
+                    }
+                    let k = g.rng.range(2, 13) as u32;
+                    let t = g.tick(false);
+                    let s = if g.rng.chance(1, 2) {
+                        let s0 = g.next_seq; g.next_seq += k as i64;
+                        for j in 0..k as i64 { ops.push(Op::Register(i, s0 + j, t)); g.sent[i].push(s0 + j); }
+                        s0
+                    } else { g.some_seq() };
+                    if s >= 0 && s + (k as i64) < (1i64 << 31) { ops.push(Op::SrtlaAckRun(i, s, k, g.rng.chance(1, 2), t)); }
+                }
                 else if r < 80 {
                     let s = g.fresh_seq(); let t = g.tick(false);
                     ops.push(Op::Register(i, s, t)); g.sent[i].push(s);
@@ -385,7 +457,27 @@ pub fn gen_ops(rng: &mut Rng, profile: Profile, n: usize, len: usize) -> Vec<Op>
                 }
             }
             Profile::C02 | Profile::C10 => {
-                if r < 40 {
+                if r < 8 {
+                    // a flushed batch through the real take_batch: data packets with SRT control packets (no number)
+                    // at the front, in the middle, at the end
+                    let i = g.link(); let t = g.tick(false);
+                    let k = g.rng.range(2, 7) as u32;
+                    let mut mask = (g.rng.below(1 << k) as u32) & !(1u32 << g.rng.below(k as u64));   // >= 1 data entry
+                    if g.rng.chance(1, 3) { mask |= 1; if mask == (1u32 << k) - 1 { mask &= !2; } }   // control packet first
+                    let nd = (0..k).filter(|j| (mask >> j) & 1 == 0).count() as i64;
+                    let s0 = g.next_seq;
+                    if s0 + nd < (1i64 << 31) {
+                        g.next_seq += nd;
+                        ops.push(Op::Batch(i, s0, k, mask, t));
+                        for d in 0..nd { g.sent[i].push(s0 + d); }
+                    }
+                }
+                else if r < 12 {
+                    // an SRTLA ACK datagram with several numbers, one call of the real fan-out
+                    let idx = g.link(); let t = g.tick(false); let s = g.some_seq(); let k = g.rng.range(2, 10) as u32;
+                    if s >= 0 && s + (k as i64) < (1i64 << 31) { ops.push(Op::SrtlaAckRun(idx, s, k, classic_case, t)); }
+                }
+                else if r < 40 {
                     let i = g.link(); let t = g.tick(false);
                     // fresh send, retransmission of an older (possibly already acked) number, or duplicate probe
                     let s = if g.rng.chance(3, 4) { g.fresh_seq() } else { g.some_seq() };
